@@ -176,7 +176,7 @@ Section Builders.
             end
       end.
 
-    Definition c_step := c_step_gen true.
+    Definition c_step := c_step_gen C_DECLARED_COST_GUARD.       (* Gen/Builder.v: the translator insists on the guard *)
     Definition c_step_prefix := c_step_gen false.
 
     (* cost(): None = overflow panic *)
@@ -290,7 +290,7 @@ Section Builders.
           end
       end.
 
-    Definition i_step := i_step_gen true.
+    Definition i_step := i_step_gen I_DECLARED_COST_GUARD.
     Definition i_step_prefix := i_step_gen false.
 
     (* self.byte_cost + WRAPPER_VBYTES * self.cost_per_byte + self.block_cost *)
